@@ -321,7 +321,7 @@ func c06Run(c Case) (Result, error) {
 	case "keygen":
 		sks, pks, gpk, err := crypto.BLSThresholdKeyGen(in.N, in.T, unhx(in.Seed))
 		if err != nil {
-			return Result{}, err
+			return Result{}, implViolation("BLSThresholdKeyGen(%d, %d, %d-byte seed) refused valid parameters: %v", in.N, in.T, len(unhx(in.Seed)), err)
 		}
 		consistent := true
 		var why []string
@@ -362,7 +362,7 @@ func c06Run(c Case) (Result, error) {
 			// stateful API on the same subset
 			ts, err := crypto.NewBLSThresholdSignatureInspector(gpk, pks, in.T, msg, tag)
 			if err != nil {
-				return Result{}, err
+				return Result{}, implViolation("NewBLSThresholdSignatureInspector refused a valid group of %d with threshold %d: %v", in.N, in.T, err)
 			}
 			for k, i := range sub {
 				if k > in.T {
@@ -493,7 +493,7 @@ func c06Run(c Case) (Result, error) {
 		}
 		out, err := crypto.BLSReconstructThresholdSignature(254, len(in.Idx)-1, shares, in.Idx)
 		if err != nil {
-			return Result{}, err
+			return Result{}, implViolation("BLSReconstructThresholdSignature(254, %d, ...) refused valid shares of signers %v: %v", len(in.Idx)-1, in.Idx, err)
 		}
 		term := fmt.Sprintf("LambdaCase %s %s %s %s", cqs(hx(hEnc)), zl(idx1), cqlist(sig), cqs(hx(out)))
 		return Result{Coq: term, Key: string(c.Input), Nontrivial: true, Obs: map[string]any{"out": hx(out)}}, nil
@@ -640,7 +640,7 @@ func c06Participant(in c06In, rr *rand.Rand, sks []crypto.PrivateKey, pks []cryp
 func c06BadShare(c Case, in c06In, rr *rand.Rand, msg []byte, tag string, hs hash.Hasher) (Result, error) {
 	sks, pks, gpk, err := crypto.BLSThresholdKeyGen(in.N, in.T, unhx(in.Seed))
 	if err != nil {
-		return Result{}, err
+		return Result{}, implViolation("BLSThresholdKeyGen(%d, %d) refused valid parameters: %v", in.N, in.T, err)
 	}
 	const m = 5
 	var shares []crypto.Signature
